@@ -1,22 +1,27 @@
 /-
-Event traces with mutexes and the lockset theorem (C20).  Core-only.
+Event traces with mutexes / reader-writer mutexes and the lockset theorems (C20).  Core-only.
 
-A trace is a list of events `(thread, op)`.  Mutex usage is well formed when a lock is acquired only
-while nobody holds it and released only by its holder (what `sync.Mutex` guarantees, resp. what the
-lock/unlock pairing of the source guarantees).  The theorem: two accesses by different threads that
-both happen while their threads hold a common lock are ordered by an explicit happens-before chain
+A trace is a list of events `(thread, op)`.  Lock usage is well formed when
+  * a lock is acquired exclusively only while nobody holds it (neither exclusively nor shared),
+  * it is acquired shared only while nobody holds it exclusively,
+  * it is released only by its exclusive holder
+(what `sync.Mutex` / `sync.RWMutex` guarantee together with the lock/unlock pairing of the source).
+The theorems: two accesses by different threads that both happen while their threads hold a common
+lock, at least one of them exclusively, are ordered by an explicit happens-before chain
   access i  ≤po  release r  <sync  acquire a  ≤po  access j
 so they cannot race.
 -/
 namespace Snowflake.Hb
 
 inductive Op
-  | acq (l : Nat)
-  | rel (l : Nat)
-  | rd (v : Nat)
-  | wr (v : Nat)
-  | ard (v : Nat)      -- atomic load
-  | awr (v : Nat)      -- atomic store / RMW
+  | acq (l : String)       -- Lock
+  | rel (l : String)       -- Unlock
+  | racq (l : String)      -- RLock
+  | rrel (l : String)      -- RUnlock
+  | rd (v : String)
+  | wr (v : String)
+  | ard (v : String)       -- atomic load
+  | awr (v : String)       -- atomic store / RMW
 deriving DecidableEq, Repr
 
 structure Ev where
@@ -26,38 +31,44 @@ deriving DecidableEq, Repr
 
 abbrev Trace := List Ev
 
-/-- Some thread releases `l` at index `k`. -/
-def isRel (τ : Trace) (l k : Nat) : Prop := ∃ t, τ[k]? = some ⟨t, .rel l⟩
+/-- Some thread releases `l` (exclusive mode) at index `k`. -/
+def isRel (τ : Trace) (l : String) (k : Nat) : Prop := ∃ t, τ[k]? = some ⟨t, .rel l⟩
 
-/-- Thread `t` holds `l` just before index `i`: it acquired it at some `a < i` and nobody released it
-in between. -/
-def Holds (τ : Trace) (t l i : Nat) : Prop :=
+/-- Thread `t` holds `l` exclusively just before index `i`: it acquired it at some `a < i` and nobody
+released it in between. -/
+def Holds (τ : Trace) (t : Nat) (l : String) (i : Nat) : Prop :=
   ∃ a, a < i ∧ τ[a]? = some ⟨t, .acq l⟩ ∧ ∀ k, a < k → k < i → ¬ isRel τ l k
 
-/-- Well-formed mutex usage. -/
+/-- Thread `t` holds `l` in shared mode just before index `i`: it r-acquired it at some `a < i` and has
+not r-released it since. -/
+def HoldsR (τ : Trace) (t : Nat) (l : String) (i : Nat) : Prop :=
+  ∃ a, a < i ∧ τ[a]? = some ⟨t, .racq l⟩ ∧ ∀ k, a < k → k < i → τ[k]? ≠ some ⟨t, .rrel l⟩
+
+/-- Well-formed lock usage. -/
 structure WF (τ : Trace) : Prop where
   acq_free : ∀ a t l, τ[a]? = some ⟨t, .acq l⟩ → ∀ t', ¬ Holds τ t' l a
+  acq_freeR : ∀ a t l, τ[a]? = some ⟨t, .acq l⟩ → ∀ t', ¬ HoldsR τ t' l a
+  racq_free : ∀ a t l, τ[a]? = some ⟨t, .racq l⟩ → ∀ t', ¬ Holds τ t' l a
   rel_held : ∀ r t l, τ[r]? = some ⟨t, .rel l⟩ → Holds τ t l r
 
 def isAccess : Op → Bool
   | .rd _ | .wr _ | .ard _ | .awr _ => true
   | _ => false
 
-/-- At most one thread holds a lock at any point. -/
-theorem holds_unique {τ : Trace} (wf : WF τ) {t t' l i : Nat} (h : Holds τ t l i) (h' : Holds τ t' l i) :
-    t = t' := by
+/-- At most one thread holds a lock exclusively at any point. -/
+theorem holds_unique {τ : Trace} (wf : WF τ) {t t' : Nat} {l : String} {i : Nat}
+    (h : Holds τ t l i) (h' : Holds τ t' l i) : t = t' := by
   obtain ⟨a, ha, hacq, hno⟩ := h
   obtain ⟨a', ha', hacq', hno'⟩ := h'
   rcases Nat.lt_trichotomy a a' with hlt | heq | hgt
-  · -- t holds at a' : contradiction with acq_free at a'
-    exfalso
+  · exfalso
     exact wf.acq_free a' t' l hacq' t ⟨a, hlt, hacq, fun k h1 h2 => hno k h1 (Nat.lt_trans h2 ha')⟩
   · subst heq; rw [hacq] at hacq'; cases hacq'; rfl
   · exfalso
     exact wf.acq_free a t l hacq t' ⟨a', hgt, hacq', fun k h1 h2 => hno' k h1 (Nat.lt_trans h2 ha)⟩
 
 /-- If `t` holds `l` before `i` and nothing releases `l` in `[i, j)`, it still holds it before `j`. -/
-theorem holds_extend {τ : Trace} {t l i j : Nat} (h : Holds τ t l i) (hij : i ≤ j)
+theorem holds_extend {τ : Trace} {t : Nat} {l : String} {i j : Nat} (h : Holds τ t l i) (hij : i ≤ j)
     (hno : ∀ k, i ≤ k → k < j → ¬ isRel τ l k) : Holds τ t l j := by
   obtain ⟨a, ha, hacq, hn⟩ := h
   refine ⟨a, Nat.lt_of_lt_of_le ha hij, hacq, ?_⟩
@@ -66,11 +77,24 @@ theorem holds_extend {τ : Trace} {t l i j : Nat} (h : Holds τ t l i) (hij : i 
   · exact hn k h1 hk
   · exact hno k hk h2
 
-/-- Existence of a first index in `[i, j)` satisfying a decidable-free property, classically. -/
-theorem exists_rel_between {τ : Trace} {l i j : Nat} (h : ¬ ∀ k, i ≤ k → k < j → ¬ isRel τ l k) :
-    ∃ r, i ≤ r ∧ r < j ∧ isRel τ l r ∧ ∀ k, i ≤ k → k < r → ¬ isRel τ l k := by
-  -- strong induction on the distance
-  have : ∃ r, i ≤ r ∧ r < j ∧ isRel τ l r := by
+theorem holdsR_extend {τ : Trace} {t : Nat} {l : String} {i j : Nat} (h : HoldsR τ t l i) (hij : i ≤ j)
+    (hno : ∀ k, i ≤ k → k < j → τ[k]? ≠ some ⟨t, .rrel l⟩) : HoldsR τ t l j := by
+  obtain ⟨a, ha, hacq, hn⟩ := h
+  refine ⟨a, Nat.lt_of_lt_of_le ha hij, hacq, ?_⟩
+  intro k h1 h2
+  rcases Nat.lt_or_ge k i with hk | hk
+  · exact hn k h1 hk
+  · exact hno k hk h2
+
+/-- Holding is monotone downwards: held before `j` with the acquisition before `i ≤ j` means held before `i`. -/
+theorem holds_restrict {τ : Trace} {t : Nat} {l : String} {a i j : Nat} (hai : a < i) (hij : i ≤ j)
+    (hacq : τ[a]? = some ⟨t, .acq l⟩) (hno : ∀ k, a < k → k < j → ¬ isRel τ l k) : Holds τ t l i :=
+  ⟨a, hai, hacq, fun k h1 h2 => hno k h1 (Nat.lt_of_lt_of_le h2 hij)⟩
+
+/-- Least index in `[i, j)` with a property, classically. -/
+theorem exists_first {P : Nat → Prop} {i j : Nat} (h : ¬ ∀ k, i ≤ k → k < j → ¬ P k) :
+    ∃ r, i ≤ r ∧ r < j ∧ P r ∧ ∀ k, i ≤ k → k < r → ¬ P k := by
+  have : ∃ r, i ≤ r ∧ r < j ∧ P r := by
     apply Classical.byContradiction
     intro hn
     apply h
@@ -79,9 +103,9 @@ theorem exists_rel_between {τ : Trace} {l i j : Nat} (h : ¬ ∀ k, i ≤ k →
   obtain ⟨r, h1, h2, h3⟩ := this
   induction r using Nat.strongRecOn with
   | _ r ih =>
-    by_cases hfirst : ∀ k, i ≤ k → k < r → ¬ isRel τ l k
+    by_cases hfirst : ∀ k, i ≤ k → k < r → ¬ P k
     · exact ⟨r, h1, h2, h3, hfirst⟩
-    · have : ∃ k, i ≤ k ∧ k < r ∧ isRel τ l k := by
+    · have : ∃ k, i ≤ k ∧ k < r ∧ P k := by
         apply Classical.byContradiction
         intro hn
         apply hfirst
@@ -90,35 +114,102 @@ theorem exists_rel_between {τ : Trace} {l i j : Nat} (h : ¬ ∀ k, i ≤ k →
       obtain ⟨k, a, b, c⟩ := this
       exact ih k b a (Nat.lt_trans b h2) c
 
-/-- **Lockset theorem.** In a well-formed trace, let `i < j` be access events of different threads
-`ti ≠ tj` such that `ti` holds `l` at `i` and `tj` holds `l` at `j`.  Then there are indices
-`i < r < a < j` with: `r` a release of `l` *by `ti`* (program order after `i`), `a` the acquisition of
-`l` *by `tj`* (program order before `j`), and release-before-acquire is a synchronisation edge — i.e. the
-two accesses are ordered by happens-before. -/
-theorem lockset_ordered {τ : Trace} (wf : WF τ) {i j ti tj l : Nat} {oi oj : Op}
-    (hij : i < j) (hi : τ[i]? = some ⟨ti, oi⟩) (hj : τ[j]? = some ⟨tj, oj⟩)
-    (hai : isAccess oi = true) (_haj : isAccess oj = true) (hne : ti ≠ tj)
+/-- **Lockset theorem, exclusive/exclusive.** In a well-formed trace, let `i < j` be access events of
+different threads `ti ≠ tj` such that `ti` holds `l` at `i` and `tj` holds `l` at `j`.  Then there are
+indices `i < r < a < j` with: `r` a release of `l` *by `ti`* (program order after `i`), `a` the
+acquisition of `l` *by `tj`* (program order before `j`), and release-before-acquire is a synchronisation
+edge — i.e. the two accesses are ordered by happens-before. -/
+theorem lockset_ordered {τ : Trace} (wf : WF τ) {i j ti tj : Nat} {l : String} {oi oj : Op}
+    (hij : i < j) (hi : τ[i]? = some ⟨ti, oi⟩) (_hj : τ[j]? = some ⟨tj, oj⟩)
+    (hai : isAccess oi = true) (hne : ti ≠ tj)
     (hhi : Holds τ ti l i) (hhj : Holds τ tj l j) :
     ∃ r a, i < r ∧ r < a ∧ a < j ∧ τ[r]? = some ⟨ti, .rel l⟩ ∧ τ[a]? = some ⟨tj, .acq l⟩ := by
   obtain ⟨aj, haj, hacqj, hnoj⟩ := hhj
-  -- tj's acquisition is after i
   have hlt : i < aj := by
     rcases Nat.lt_trichotomy i aj with h | h | h
     · exact h
     · subst h; rw [hi] at hacqj; cases hacqj; simp [isAccess] at hai
-    · -- aj < i : then tj holds l before i as well; contradiction with uniqueness
-      exfalso
-      have : Holds τ tj l i := ⟨aj, h, hacqj, fun k h1 h2 => hnoj k h1 (Nat.lt_trans h2 hij)⟩
-      exact hne (holds_unique wf hhi this)
-  -- somebody releases l in [i, aj): otherwise ti still holds it at aj
+    · exfalso
+      exact hne (holds_unique wf hhi (holds_restrict h (Nat.le_of_lt hij) hacqj hnoj))
   have hex : ¬ ∀ k, i ≤ k → k < aj → ¬ isRel τ l k := by
     intro hno
     exact wf.acq_free aj tj l hacqj ti (holds_extend hhi (Nat.le_of_lt hlt) hno)
-  obtain ⟨r, hr1, hr2, ⟨tr, hrel⟩, hfirst⟩ := exists_rel_between hex
-  -- the first such release is by the holder, which is ti
+  obtain ⟨r, hr1, hr2, ⟨tr, hrel⟩, hfirst⟩ := exists_first hex
   have hholdr : Holds τ ti l r := holds_extend hhi hr1 hfirst
   have htr : tr = ti := holds_unique wf (wf.rel_held r tr l hrel) hholdr
   subst htr
+  have hri : i < r := by
+    rcases Nat.lt_or_ge i r with h | h
+    · exact h
+    · have : r = i := Nat.le_antisymm h hr1
+      subst this; rw [hi] at hrel; cases hrel; simp [isAccess] at hai
+  exact ⟨r, aj, hri, hr2, haj, hrel, hacqj⟩
+
+/-- **Lockset theorem, exclusive then shared.** The earlier access holds `l` exclusively, the later one
+in shared mode: ordered through `Unlock` by `ti` → `RLock` by `tj`. -/
+theorem lockset_ordered_wr {τ : Trace} (wf : WF τ) {i j ti tj : Nat} {l : String} {oi oj : Op}
+    (hij : i < j) (hi : τ[i]? = some ⟨ti, oi⟩) (_hj : τ[j]? = some ⟨tj, oj⟩)
+    (hai : isAccess oi = true)
+    (hhi : Holds τ ti l i) (hhj : HoldsR τ tj l j) :
+    ∃ r a, i < r ∧ r < a ∧ a < j ∧ τ[r]? = some ⟨ti, .rel l⟩ ∧ τ[a]? = some ⟨tj, .racq l⟩ := by
+  obtain ⟨aj, haj, hacqj, hnoj⟩ := hhj
+  obtain ⟨ai, hai', hacqi, hnoi⟩ := hhi
+  have hlt : i < aj := by
+    rcases Nat.lt_trichotomy i aj with h | h | h
+    · exact h
+    · subst h; rw [hi] at hacqj; cases hacqj; simp [isAccess] at hai
+    · exfalso
+      -- aj < i : compare with ti's exclusive acquisition ai
+      rcases Nat.lt_trichotomy aj ai with h' | h' | h'
+      · -- tj holds shared at ai: exclusive acquisition impossible
+        exact wf.acq_freeR ai ti l hacqi tj
+          ⟨aj, h', hacqj, fun k h1 h2 => hnoj k h1 (Nat.lt_trans h2 (Nat.lt_trans hai' hij))⟩
+      · subst h'; rw [hacqi] at hacqj; cases hacqj
+      · -- ti holds exclusively at aj: shared acquisition impossible
+        exact wf.racq_free aj tj l hacqj ti
+          ⟨ai, h', hacqi, fun k h1 h2 => hnoi k h1 (Nat.lt_trans h2 h)⟩
+  have hhi : Holds τ ti l i := ⟨ai, hai', hacqi, hnoi⟩
+  have hex : ¬ ∀ k, i ≤ k → k < aj → ¬ isRel τ l k := by
+    intro hno
+    exact wf.racq_free aj tj l hacqj ti (holds_extend hhi (Nat.le_of_lt hlt) hno)
+  obtain ⟨r, hr1, hr2, ⟨tr, hrel⟩, hfirst⟩ := exists_first hex
+  have hholdr : Holds τ ti l r := holds_extend hhi hr1 hfirst
+  have htr : tr = ti := holds_unique wf (wf.rel_held r tr l hrel) hholdr
+  subst htr
+  have hri : i < r := by
+    rcases Nat.lt_or_ge i r with h | h
+    · exact h
+    · have : r = i := Nat.le_antisymm h hr1
+      subst this; rw [hi] at hrel; cases hrel; simp [isAccess] at hai
+  exact ⟨r, aj, hri, hr2, haj, hrel, hacqj⟩
+
+/-- **Lockset theorem, shared then exclusive.** The earlier access holds `l` in shared mode, the later one
+exclusively: ordered through `RUnlock` by `ti` → `Lock` by `tj`. -/
+theorem lockset_ordered_rw {τ : Trace} (wf : WF τ) {i j ti tj : Nat} {l : String} {oi oj : Op}
+    (hij : i < j) (hi : τ[i]? = some ⟨ti, oi⟩) (_hj : τ[j]? = some ⟨tj, oj⟩)
+    (hai : isAccess oi = true)
+    (hhi : HoldsR τ ti l i) (hhj : Holds τ tj l j) :
+    ∃ r a, i < r ∧ r < a ∧ a < j ∧ τ[r]? = some ⟨ti, .rrel l⟩ ∧ τ[a]? = some ⟨tj, .acq l⟩ := by
+  obtain ⟨aj, haj, hacqj, hnoj⟩ := hhj
+  obtain ⟨ai, hai', hacqi, hnoi⟩ := hhi
+  have hlt : i < aj := by
+    rcases Nat.lt_trichotomy i aj with h | h | h
+    · exact h
+    · subst h; rw [hi] at hacqj; cases hacqj; simp [isAccess] at hai
+    · exfalso
+      rcases Nat.lt_trichotomy aj ai with h' | h' | h'
+      · -- tj holds exclusively at ai: shared acquisition impossible
+        exact wf.racq_free ai ti l hacqi tj
+          ⟨aj, h', hacqj, fun k h1 h2 => hnoj k h1 (Nat.lt_trans h2 (Nat.lt_trans hai' hij))⟩
+      · subst h'; rw [hacqi] at hacqj; cases hacqj
+      · -- ti holds shared at aj: exclusive acquisition impossible
+        exact wf.acq_freeR aj tj l hacqj ti
+          ⟨ai, h', hacqi, fun k h1 h2 => hnoi k h1 (Nat.lt_trans h2 h)⟩
+  have hhi : HoldsR τ ti l i := ⟨ai, hai', hacqi, hnoi⟩
+  have hex : ¬ ∀ k, i ≤ k → k < aj → ¬ (τ[k]? = some ⟨ti, .rrel l⟩) := by
+    intro hno
+    exact wf.acq_freeR aj tj l hacqj ti (holdsR_extend hhi (Nat.le_of_lt hlt) hno)
+  obtain ⟨r, hr1, hr2, hrel, _⟩ := exists_first hex
   have hri : i < r := by
     rcases Nat.lt_or_ge i r with h | h
     · exact h
